@@ -97,6 +97,19 @@ class C17(Prop):
                 if rng.random() < 0.15:
                     lines.append(self.line(kind, sub, dangling=rng.choice(["-p", "-i", "-d", "-rd", "--duplicate-packets", "-b", "-w", "-t", "-sd"])))
             lines.append(self.line(kind, []))
+            # directed: every value group (valid and invalid values) against every value-less flag, in every order - an invalid value is an
+            # error wherever it stands, a valid one gives the same configuration wherever it stands
+            valued = [g for g in pool if len(g) == 3]
+            plain = [g for g in pool if len(g) == 2 and g[0] not in ("help", "bad", "file")]
+            filegrp = [("file", "a.txt")] if kind == "C" else []
+            for v in valued:
+                for fl in plain:
+                    for pm in itertools.permutations(filegrp + [v, fl]):
+                        lines.append(self.line(kind, pm))
+                if tier == "thorough" or rng.random() < 0.3:
+                    two = rng.sample(plain, 2)
+                    for pm in itertools.permutations(filegrp + [v] + two):
+                        lines.append(self.line(kind, pm))
         return list(dict.fromkeys(lines))
 
     # --- the property statement, evaluated independently
